@@ -87,8 +87,11 @@ def run_family(ctx):
         scs = [case["scenario"]]
     else:
         # ---- design
-        two = {"Node": "{n1, n2}", "MaxTerm": 3, "Values": '{"v1", "v2"}', "MaxLog": 4}
-        r = ctx.tlc("RaftHost", ctx.cfg("RaftHost_mc.cfg", two), timeout=1500, heap="12g", name="RaftHost-2")
+        # 2 replicas, 3 terms, 1 crash, 1 local snapshot (+ the snapshot message it may cause); 2 values in the thorough tier
+        two = {"Node": "{n1, n2}", "MaxTerm": 3, "MaxLog": 4}
+        if not quick:
+            two["Values"] = '{"v1", "v2"}'
+        r = ctx.tlc("RaftHost", ctx.cfg("RaftHost_mc.cfg", two), timeout=3000, heap="12g", name="RaftHost-2")
         if r.violated:
             raise vlib.NoVerdict("RaftHost (2 replicas) violates %s: specification bug" % r.violated)
         if not quick:
@@ -96,8 +99,11 @@ def run_family(ctx):
             if r.violated:
                 raise vlib.NoVerdict("RaftHost (3 replicas) violates %s: specification bug" % r.violated)
         ctx.cov["exhaustive"] = True
-        for sw, val in (("RestartMode", '"start"'), ("SendPolicy", '"allFirst"')):
-            rr = ctx.tlc("RaftHost", ctx.cfg("RaftHost_mc.cfg", {sw: val}), timeout=900, heap="12g", name="RaftHost-" + sw, count=False)
+        for sw, val in (("RestartMode", '"start"'), ("SendPolicy", '"allFirst"'), ("SnapLabel", '"plusone"')):
+            ov = {sw: val}
+            if sw == "SnapLabel":
+                ov.update({"Node": "{n1, n2}", "MaxTerm": 3, "MaxLog": 4})
+            rr = ctx.tlc("RaftHost", ctx.cfg("RaftHost_mc.cfg", ov), timeout=900, heap="12g", name="RaftHost-" + sw, count=False)
             ctx.cov["binding_selftest"]["switch_%s_%s_gives_counterexample" % (sw, val.strip('"'))] = rr.violated
             if not rr.violated:
                 raise vlib.NoVerdict("vacuity guard failed for %s=%s" % (sw, val))
